@@ -34,6 +34,17 @@ Definition run_c15 (x : sx) : sx :=
   | SL [SY "readcif"; SZ opts; SZ level; SS input] => sx_read_cif opts level input
   | SL [SY "pdbfilter"; SZ opts; SL recs] => sx_filtered_pdb opts (flat_map (fun r => opt_list (rec_of_sx r)) recs)
   | SL [SY "ciffilter"; SZ opts; doc] => match cdoc_of_sx doc with Some d => sx_filtered_cif opts d | None => SY "bad-doc" end
+  (* a read is accepted at the loose level exactly when the filtered records / rows still state an atom *)
+  | SL [SY "pdbaccept"; SZ opts; SL recs] =>
+      let rs0 := flat_map (fun r => opt_list (rec_of_sx r)) recs in
+      let rs := if Z.testbit opts 0 then pdb_without_H rs0 else rs0 in
+      if is_nil (p_atoms (denote_models rs)) then SY "rejected" else SY "accepted"
+  | SL [SY "cifaccept"; SZ opts; doc] =>
+      match cdoc_of_sx doc with
+      | Some d => let rows := if Z.testbit opts 0 then cif_without_H (d_rows d) else d_rows d in
+                  if is_nil rows then SY "rejected" else SY "accepted"
+      | None => SY "bad-doc"
+      end
   | SL [SY "guess"; SS path] => match guess_format path with Some (f, gz) => SL [sx_fmt f; sbool gz] | None => SY "none" end
   | SL [SY "save"; SS path] => match save_format path with Some f => sx_fmt f | None => SY "none" end
   | SL [SY "savegz"; SS path] => match save_gz_format path with Some f => sx_fmt f | None => SY "none" end
